@@ -152,7 +152,7 @@ func universes(thorough bool) []*universe {
 			{mkPool("a", []string{"10.0.0.0/31"}, nil)},
 		},
 		[]slotT{{"ns1", "s1"}, {"ns1", "s2"}, {"ns1", "s3"}}, shareVs, map[int][]int{0: {1, 3}, 1: {2, 4, 0}, 2: {0, 2, 7}})
-	rs.Preload = []preSvc{{0, 1, []string{"10.0.0.0"}, "a"}, {1, 2, []string{"10.0.0.0"}, "a"}}
+	rs.Preload = []preSvc{{0, 1, []string{"10.0.0.0"}, "a", false}, {1, 2, []string{"10.0.0.0"}, "a", false}}
 	us = append(us, rs)
 
 	// ---- U-policy: pool selection policy ----
@@ -185,6 +185,11 @@ func universes(thorough bool) []*universe {
 				p.Spec.AllocateTo = &metallbv1beta1.ServiceAllocation{Priority: 20, NamespaceSelectors: []metav1.LabelSelector{lsel("team", "none")}}
 			}),
 			mkPool("c-buggy", []string{"10.0.3.0-10.0.3.1", "10.0.3.255/32"}, func(p *metallbv1beta1.IPAddressPool) { p.Spec.AvoidBuggyIPs = true }),
+		},
+		{ // P4: the only pool carries a service allocation with nothing but a priority: it admits every service, labelled or not
+			mkPool("p-priority-only", []string{"10.0.8.0/31"}, func(p *metallbv1beta1.IPAddressPool) {
+				p.Spec.AllocateTo = &metallbv1beta1.ServiceAllocation{Priority: 3}
+			}),
 		},
 		{ // P3: namespace selector matching nothing combined with a service selector
 			mkPool("g-nobody", []string{"10.0.7.0/31"}, func(p *metallbv1beta1.IPAddressPool) {
@@ -300,10 +305,10 @@ func universes(thorough bool) []*universe {
 	}
 	slots3 := []slotT{{"ns1", "s1"}, {"ns1", "s2"}, {"ns1", "s3"}}
 	r1 := mkUniverse("restart-stale-annotation+pending", ns12[:1], [][]metallbv1beta1.IPAddressPool{restartLayouts[2], restartLayouts[0], restartLayouts[1]}, slots3, restartVs, map[int][]int{0: {0, 3}, 1: {0, 1}, 2: {0, 2}})
-	r1.Preload = []preSvc{{0, 0, []string{"10.0.0.0"}, "renamed-pool"}, {1, 0, []string{"10.0.0.1"}, "a"}, {2, 0, nil, ""}}
+	r1.Preload = []preSvc{{0, 0, []string{"10.0.0.0"}, "renamed-pool", false}, {1, 0, []string{"10.0.0.1"}, "a", false}, {2, 0, nil, "", false}}
 	us = append(us, r1)
 	r2 := mkUniverse("restart-full-pool+waiting", ns12[:1], [][]metallbv1beta1.IPAddressPool{restartLayouts[2], restartLayouts[0], {}}, slots3, restartVs, map[int][]int{0: {0, 1, 3}, 1: {0, 1}, 2: {0, 1}})
-	r2.Preload = []preSvc{{0, 0, []string{"10.0.0.0"}, "a"}, {1, 1, []string{"10.0.0.1"}, "a"}, {2, 0, nil, ""}}
+	r2.Preload = []preSvc{{0, 0, []string{"10.0.0.0"}, "a", false}, {1, 1, []string{"10.0.0.1"}, "a", false}, {2, 0, nil, "", false}}
 	us = append(us, r2)
 
 	// a PreferDualStack service recorded with one family in a pool that has both, and a service without address:
@@ -312,15 +317,20 @@ func universes(thorough bool) []*universe {
 		{mkPool("a", []string{"10.0.0.0/31", "fc00::/127"}, nil)},
 		{mkPool("a", []string{"10.0.0.0/31"}, nil)},
 	}, slots3, restartVs, map[int][]int{0: {4}, 1: {0, 4}, 2: {0}})
-	r3.Preload = []preSvc{{0, 4, []string{"10.0.0.0"}, "a"}, {1, 0, nil, ""}}
+	r3.Preload = []preSvc{{0, 4, []string{"10.0.0.0"}, "a", false}, {1, 0, nil, "", false}}
 	us = append(us, r3)
 	// the same PreferDualStack service next to a dual-stack service that recorded both of its addresses (the first sync
 	// re-asserts services with more recorded addresses first, so the top-up cannot take the recorded IPv6 address)
 	r4 := mkUniverse("restart-prefer-topup+dualstack", ns12[:1], [][]metallbv1beta1.IPAddressPool{
 		{mkPool("a", []string{"10.0.0.0/31", "fc00::/127"}, nil)},
 	}, slots3, restartVs, map[int][]int{0: {4}, 1: {0}, 2: {5}})
-	r4.Preload = []preSvc{{0, 4, []string{"10.0.0.0"}, "a"}, {2, 5, []string{"10.0.0.1", "fc00::"}, "a"}}
+	r4.Preload = []preSvc{{0, 4, []string{"10.0.0.0"}, "a", false}, {2, 5, []string{"10.0.0.1", "fc00::"}, "a", false}}
 	us = append(us, r4)
+
+	// a Service that is being deleted (held by a finalizer) still holds its recorded address across a restart
+	r5 := mkUniverse("restart-terminating-holder", ns12[:1], [][]metallbv1beta1.IPAddressPool{restartLayouts[2], restartLayouts[0]}, slots3, restartVs, map[int][]int{0: {0}, 1: {0, 1}, 2: {0, 1}})
+	r5.Preload = []preSvc{{Slot: 0, Variant: 0, Status: []string{"10.0.0.0"}, FromPool: "a", Terminating: true}, {Slot: 1, Variant: 0, Status: []string{"10.0.0.1"}, FromPool: "a"}, {Slot: 2, Variant: 0}}
+	us = append(us, r5)
 
 	us = append(us, mkUniverse("reconf", ns12, reLayouts, []slotT{{"ns1", "s1"}, {"ns1", "s2"}, {"ns2", "s3"}}, reVs, map[int][]int{2: {0, 2}}))
 	return us
